@@ -334,7 +334,61 @@ def callbacks_that_use_intercepted_inputs(ctx):
                     ctx.violation('playback output differs from recorded output on unchanged code', dict(w, recorded=repr(ro)[:200], playback=repr(po)[:200]))
 
 
+def runs_with_service_level_faults(ctx):
+    """Recorded runs in which the SERVICE misbehaves at one step (an intercepted body raises an ordinary exception, one that carries a
+    resource the serializer cannot encode, returns an unencodable value; the operation itself raises such exceptions) and the
+    operation handles it or not. Whatever the recorder saves for such a run as a complete recording is in the property's domain: its
+    replay on the same code (same misbehaviour of the code; bodies are not run anyway) must reproduce the recorded run. Runs for which
+    nothing is saved, or an incomplete recording, are only counted."""
+    from playback.tape_recorder import TapeRecorder
+    from vlib import faultruns as fr
+    wanted = ('body_raise_user', 'body_raise_unencodable', 'value_unencodable', 'raise_user', 'raise_user_unencodable',
+              'raise_user_unencodable_noargs')
+    progs = fr.base_programs(ctx.seed + 313, ctx.budget(8, 60))
+    idx = 0
+    for prog in progs:
+        for faults in fr.all_placements(prog, pairs=False):
+            if not faults or any(f not in wanted for f in faults.values()):
+                continue
+            idx += 1
+            if not ctx.mine(idx):
+                continue
+            res = fr.execute(prog, faults, with_twin=False, kind=['memory', 'file', 's3'][idx % 3])
+            try:
+                w = {'service_level_faults': True, 'gen_seed': prog['gen_seed'], 'program': describe(prog), 'faults': fr.faults_json(faults)}
+                ctx.count('runs_with_a_service_level_fault')
+                saves = [e for e in res.spy_events if e[0] == 'save']
+                if len(saves) != 1 or any(e[0] == 'save_failed' for e in res.spy_events):
+                    ctx.count('faulted_runs_for_which_nothing_was_saved')
+                    continue
+                e = saves[0]
+                ro = res.spy.recordings.get(e[1])
+                md = getattr(ro, 'recording_metadata', None) or {}
+                if md.get(TapeRecorder.INCOMPLETE_RECORDING):
+                    ctx.count('faulted_runs_saved_as_incomplete')
+                    continue
+                if ro is None or not recording_in_domain(getattr(ro, 'recording_data', {}), md):
+                    ctx.count('recordings_out_of_serializer_domain')
+                    continue
+                for _, k in res.live.fault_log:
+                    ctx.count('replayed_after_fault_' + k)
+                rec2 = TapeRecorder(res.box.reader())
+                rep = Built(res.live.prog, rec2, World(1, poison=True), faults=fr.service_faults(faults), cls_name=res.live.cls.__name__)
+                try:
+                    playback = rec2.play(e[2], playback_function_for(rep))
+                except BaseException as ex:  # noqa
+                    ctx.violation('replay of a complete recording on unchanged code failed with %s' % type(ex).__name__,
+                                  dict(w, error=repr(ex)[:300]))
+                    continue
+                ctx.case({'p': prog['gen_seed'], 'f': fr.faults_json(faults)}, nontrivial=True)
+                ctx.count('faulted_runs_replayed')
+                compare_runs(ctx, res.live, rep, playback, w)
+            finally:
+                fr.close(res)
+
+
 def run(ctx):
+    runs_with_service_level_faults(ctx)
     if ctx.shard == 0:
         callbacks_that_use_intercepted_inputs(ctx)
     threaded_under_scheduler(ctx)
@@ -352,6 +406,8 @@ def run(ctx):
 
 
 def replay(ctx, w):
+    if w.get('service_level_faults'):
+        return runs_with_service_level_faults(ctx)
     if w.get('callbacks_using_inputs'):
         return callbacks_that_use_intercepted_inputs(ctx)
     if w.get('reused_buffer'):
